@@ -591,6 +591,9 @@ func recordConc(rec *recorder, rng *rand.Rand, trials int, repo string) int {
 	nProg := 3
 	if concMode == "hot" {
 		nProg = 2 + trials/2
+		if nProg > 12 {
+			nProg = 12
+		}
 	}
 	for pi := 0; pi < nProg; pi++ {
 		m, inShapes, _, ok := randomProgram(rng)
@@ -634,6 +637,9 @@ func recordConc(rec *recorder, rng *rand.Rand, trials int, repo string) int {
 		runs := 1 + trials/2
 		if concMode == "hot" {
 			runs = 6 * trials
+			if runs > 150 {
+				runs = 150
+			}
 		}
 		var rw sync.WaitGroup
 		for gi := 1; gi <= 8; gi++ {
